@@ -14,7 +14,7 @@ class Gen:
     def weights(self):
         w = dict(apply=10, ack=12, ready=12, exit=4, tick=9, advance=8, scan=5, map=2, imap=2, imapu=1,
                  feed=4, stale_ack=0.7, stale_ready=0.7, death=0.7, junk=0.5, discard=0.7, terminate_job=1.5,
-                 grow=1, shrink=1, close=0.3, next=2.5)
+                 grow=1, shrink=1, close=0.3, next=2.5, dup_ready=1.0)
         w.update(self.focus)
         return w
 
@@ -91,6 +91,12 @@ class Gen:
             if j is None:
                 return None
             return ['ready', j, self.part_index(c.jobs[j]), rng.random() < 0.8, rng.randrange(100)]
+        if k == 'dup_ready':
+            # a second result message for a job that is resolved but still cached
+            j = self.pick_job(lambda k, j: j._job in c.pool._cache and j.ready())
+            if j is None:
+                return None
+            return ['ready', j, self.part_index(c.jobs[j]), rng.random() < 0.7, rng.randrange(100)]
         if k == 'discard':
             j = self.pick_job(lambda k, j: isinstance(j, bp.ApplyResult) and not isinstance(j, bp.MapResult))
             return None if j is None else ['discard', j]
